@@ -192,6 +192,36 @@ def run(rep, tier, seed, keep=False):
                            'r': {'pos': enc_out(lambda: eng.ev('pos', a)), 'neg': enc_out(lambda: eng.ev('neg', a))}})
             objs[i] = ('unary', a)
             i += 1
+        # the same with the operand written as a literal (what the parser does with a sign in front of a literal is part of it)
+        def lit(v):
+            if v is None:
+                return 'null'
+            if v is True:
+                return 'true'
+            if v is False:
+                return 'false'
+            if isinstance(v, str):
+                return "'" + v.replace('\\', '\\\\').replace("'", "\\'") + "'" if v.isascii() and v.isprintable() else None
+            if isinstance(v, float):
+                r_ = repr(v)
+                return r_ if 'e' not in r_ and 'inf' not in r_ and 'nan' not in r_ and v >= 0 and not (v == 0 and str(v).startswith('-')) else None
+            return str(v) if v >= 0 and len(str(v)) < 4000 else None
+        for a in corpus:
+            l = lit(a)
+            if l is None:
+                continue
+            def run_text(t):
+                try:
+                    return trace.enc(eng.engine(t).evaluate(context=eng.ctx.create_child_context()))
+                except Exception as e:  # noqa
+                    n_ = type(e).__name__
+                    return ['e', 'NoMatch'] if n_.startswith('NoMatching') else ['e', n_]
+            events.append({'id': i, 'act': 'unary', 'a': trace.enc(a), 'r': {'pos': run_text('+' + l), 'neg': run_text('-' + l)}})
+            objs[i] = ('unary', a, 'written as the literal ' + l)
+            i += 1
+            events.append({'id': i, 'act': 'unary', 'a': trace.enc(a), 'r': {'pos': run_text('+ ' + l), 'neg': run_text('0 + -' + l) if False else run_text('- ' + l)}})
+            objs[i] = ('unary', a, 'written as the literal ' + l + ' after a blank')
+            i += 1
         nums = [x for x in corpus if isinstance(x, (int, float)) and not isinstance(x, bool)] + [None]
         strs = [x for x in corpus if isinstance(x, str)] + [None]
         ntri = 400 if quick else 6000
